@@ -80,6 +80,20 @@ Proof.
 Qed.
 Print Assumptions commit_never_fails.
 
+(** latent (no history of sessions reaches it, by [commit_never_fails]): IF the manager refused the commit of a
+    session's transaction, the refusal would come after the triple buffer has been applied
+    ([rdf_store.commit_tx] runs before [tx_manager.commit]), the session would have left the transaction and
+    every node / edge version and in-place write of the transaction would stay *)
+Theorem failed_commit_would_leak : forall st s t, sess st s = Some t -> tm_state st t <> Some Active ->
+  let st' := fst (step st (Commit s)) in
+  snd (step st (Commit s)) = OErr
+  /\ rdf st' = fold_left apply_pend (rdf_buf st t) (rdf st)
+  /\ sess st' s = None
+  /\ n_chain st' = n_chain st /\ e_chain st' = e_chain st /\ n_props st' = n_props st
+  /\ n_labels st' = n_labels st /\ l_index st' = l_index st /\ tm_state st' = tm_state st.
+Proof. exact failed_commit_would_leak_l. Qed.
+Print Assumptions failed_commit_would_leak.
+
 (** *** atomic_outside_K: transactions made only of node creations without labels and properties, triple
     operations and reads ([frag]), other sessions only reading meanwhile.
     Rollback: every read of every session through every access path returns what it returned before the
